@@ -194,6 +194,39 @@ func MakeBound(n int) {}
 // GoInline lets the engine run `go f()` statements as plain calls (only for bodies whose effects are order-independent).
 func GoInline() {}
 
+// TempDir returns a scratch directory (the engine's model file system needs none and returns a fixed name).
+func TempDir() string {
+	d, err := os.MkdirTemp("", "verif-replay-")
+	if err != nil {
+		panic("VERIF-VECTOR: cannot create temp dir: " + err.Error())
+	}
+	return d
+}
+
+// TornWrite runs f, of whose file output to filename only the first budget bytes reach the disk (the process dies
+// while writing).  Engine: model file system with a byte budget.  Natively: the file is truncated afterwards.
+func TornWrite(filename string, budget int, f func()) {
+	var pre int64
+	if st, err := os.Stat(filename); err == nil {
+		pre = st.Size()
+	}
+	f()
+	if st, err := os.Stat(filename); err == nil && st.Size() > pre+int64(budget) {
+		if err := os.Truncate(filename, pre+int64(budget)); err != nil {
+			panic("VERIF-VECTOR: truncate failed: " + err.Error())
+		}
+	}
+}
+
+// FileBudget: only the next n bytes written to files reach the disk (the engine's model file system; natively the
+// replay harness uses a real temporary directory and truncates the file itself, see FileBudgetNative).
+func FileBudget(n int) { fileBudget = n }
+
+var fileBudget = -1
+
+// FileBudgetValue returns the budget set by FileBudget (native side, for truncation after the writes).
+func FileBudgetValue() int { return fileBudget }
+
 // Fresh returns a string distinct from every other Fresh string.
 func Fresh(prefix string) string {
 	freshSeq++
